@@ -187,8 +187,14 @@ def cosim_one(args):
             def fn():
                 n = 0
                 try:
-                    for _ in range(sc['ops']):
-                        chans[i].queue.declare('q%d' % i)
+                    for k in range(sc['ops']):
+                        if sc.get('getter') and i == 0 and k % 2 == 1:
+                            m = chans[i].basic.get('empty-queue')        # registers content frames as replies
+                            if m is not None:
+                                results[i] = ('get-returned-message', None, repr(m)[:40], n)
+                                return
+                        else:
+                            chans[i].queue.declare('q%d' % i)
                         n += 1
                     results[i] = ('done', n)
                 except amqpstorm.AMQPMessageError as why:
@@ -212,8 +218,11 @@ def cosim_one(args):
             elif sc['event'] == 'conn-close':
                 broker.close_connection(sc['code'], 'TEXT-%d' % sc['code'])
             elif sc['event'] == 'return':
+              for _k in range(sc.get('returns', 1)):
+                if _k:
+                    amqpstorm.channel.time.sleep(0.007)
                 broker.send_content(chans[0].channel_id, spec.Basic.Return(reply_code=312, reply_text='NO_ROUTE', exchange='x',
-                                                                           routing_key='y'), None, b'', reply=False)
+                                                                           routing_key='y'), None, b'r' * sc.get('return_size', 0), reply=False)
         def consumer(i):
             def fn():
                 try:
@@ -268,7 +277,9 @@ def cosim_one(args):
             elif r[0] != 'done' and not (r[0] == 'connection-error' and r[1] == code):
                 out['problems'].append(('conn-close-wrong-error', i, r[:3]))
         elif ev == 'return':
-            if i == 0 and r[0] == 'message-error':
+            if r[0] == 'get-returned-message':
+                out['problems'].append(('return-content-taken-for-get-reply', i, r[:3]))
+            elif i == 0 and r[0] == 'message-error':
                 if r[1] != 312 or r[-1][0] != 'usable' or r[-1][1] != 'after-return':
                     out['problems'].append(('return-handling', i, r))
             elif r[0] not in ('done', 'consumer-returned'):
@@ -299,7 +310,12 @@ def check(rep):
         ev = rng.choice(['chan-close', 'conn-close', 'conn-close', 'return'])
         jobs.append(({'nchan': rng.randint(1, 3), 'ops': rng.randint(2, 6), 'event': ev,
                       'code': rng.choice([404, 403, 406]) if ev == 'chan-close' else rng.choice([320, 541, 504]),
-                      'delay': rng.choice([0.0, 0.005, 0.01, 0.02, 0.05]), 'consumer': rng.random() < 0.4}, rng.randrange(1 << 30)))
+                      'delay': rng.choice([0.0, 0.005, 0.01, 0.02, 0.05]), 'consumer': rng.random() < 0.4,
+                      'getter': ev == 'return' and rng.random() < 0.6, 'return_size': rng.choice([0, 0, 7, 300, 9000])}, rng.randrange(1 << 30)))
+    # returned messages (with content) arriving while basic.get calls are pending on the same channel
+    for _ in range(60 if not thorough else 1000):
+        jobs.append(({'nchan': rng.randint(1, 2), 'ops': 8, 'event': 'return', 'code': 312, 'delay': rng.choice([0.0, 0.005, 0.01, 0.02]),
+                      'consumer': False, 'getter': True, 'returns': 4, 'return_size': rng.choice([0, 7, 300, 9000])}, rng.randrange(1 << 30)))
     for (sc, seed), r in zip(jobs, par.pmap(cosim_one, jobs)):
         waiting = any(v[0] != 'done' for v in r.get('results', {}).values())
         rep.case(('cosim', repr(sc), seed), waiting, sample={'cosim': sc, 'results': {k: v[:2] for k, v in r.get('results', {}).items()}})
